@@ -785,7 +785,7 @@ Section LNDProofs.
     l_queue s' = l_queue s -> l_subs s' = l_subs s -> l_losses s' = l_losses s -> QI X s t -> QI X s' t.
   Proof. intros H1 H2 H3 [A B C D F]. constructor; rewrite ?H1, ?H2, ?H3; auto. Qed.
 
-  Lemma QI_weaken X Y s t : (forall sp, In sp Y -> In sp X) -> QI X s t -> QI Y s t.
+  Lemma QI_weaken X Y s t : (forall sp, In sp X -> In sp Y) -> QI X s t -> QI Y s t.
   Proof. intros H [A B C D F]. constructor; auto. Qed.
 
   Lemma QI_drop sp X s t : shas sp (l_subs s) = true -> QI (sp :: X) s t -> QI X s t.
@@ -805,7 +805,7 @@ Section LNDProofs.
   Lemma usl_QI X E s sp news t : Inv t -> In sp (simplices t) -> QI X s t -> QI X (usl E s sp news) t.
   Proof.
     intros HI Hsp HQ. unfold update_subsimplex_losses. destruct (sassoc sp (l_losses s)) as [loss|].
-    2:{ eapply QI_ext; eauto. }
+    2:{ eapply QI_ext; [| | |exact HQ]; reflexivity. }
     destruct HQ as [A B C D F].
     set (f := fun u => (lmul (e_svol E sp u) (ldiv loss (e_vol E sp)), sp, Some u)).
     constructor; cbn [l_queue l_subs l_losses set_queue].
